@@ -93,6 +93,17 @@ def build(spec):
             q = _qscalar(v)
             F[i, i] = [q.w, q.x, q.y, q.z]
         A = qalg.from_comps(F)
+    elif g == "blockdiag":
+        blocks = [build(b) for b in spec["blocks"]]
+        m = sum(b.shape[0] for b in blocks)
+        n = sum(b.shape[1] for b in blocks)
+        F = np.zeros((m, n, 4))
+        i = j = 0
+        for b in blocks:
+            F[i:i + b.shape[0], j:j + b.shape[1]] = qalg.comps(b)
+            i += b.shape[0]
+            j += b.shape[1]
+        A = qalg.from_comps(F)
     elif g == "entry":
         F = np.zeros((spec["m"], spec["n"], 4))
         F[spec["i"], spec["j"]] = [float(v) for v in spec["q"]]
@@ -181,4 +192,8 @@ def shape_of(spec):
         return shape_of(spec["a"])
     if g in ("realnd", "qnd"):
         return tuple(spec["shape"])
+    if g == "blockdiag":
+        shp = [shape_of(b) for b in spec["blocks"]]
+        if all(shp):
+            return (sum(x[0] for x in shp), sum(x[1] for x in shp))
     return None
